@@ -5,21 +5,34 @@ import GluonModel.Bytecode
 import GluonModel.BytecodeParse
 import GluonModel.Compile
 import GluonModel.Proofs.Compile
+import GluonModel.Proofs.CompileLambda
 open GluonModel GluonModel.Core GluonModel.Bytecode
 
 /-- every function body of a program (the closures' bodies, at any depth), with the function
     variables in scope: the names the enclosing `Named::Recursive` groups bind to closures with
     at least one parameter, and their arity -/
-partial def bodies (Φ : List (Sym × Nat)) : Expr → List (List (Sym × Nat) × Expr)
+def patBinders' : Pat → List Sym
+  | .ctor _ args => args
+  | .ident x => [x]
+  | .lit _ => []
+  | .record _ _ fields byType => fields.map (·.binder) ++ byType.filterMap id
+
+/-- also the variables in scope at the body (`dom`: the parameters, the group's names, and
+    everything bound around the closure) -/
+partial def bodies (Φ : List (Sym × Nat)) (dom : List Sym) :
+    Expr → List (List (Sym × Nat) × List Sym × Expr)
   | .const _ => [] | .ident _ => []
-  | .call f args => bodies Φ f ++ (args.map (bodies Φ)).flatten
-  | .data _ args => (args.map (bodies Φ)).flatten
-  | .letE _ e b => bodies Φ e ++ bodies Φ b
+  | .call f args => bodies Φ dom f ++ (args.map (bodies Φ dom)).flatten
+  | .data _ args => (args.map (bodies Φ dom)).flatten
+  | .letE x e b => bodies Φ dom e ++ bodies Φ (x :: dom) b
   | .letRec cs b =>
     let Φ' := (cs.filterMap fun c => if c.2.1.length > 0 then some (c.1, c.2.1.length) else none).reverse ++ Φ
-    (cs.map fun c => (Φ', c.2.2) :: bodies Φ' c.2.2).flatten ++ bodies Φ' b
-  | .match_ s alts => bodies Φ s ++ (alts.map fun a => bodies Φ a.2).flatten
-  | .cast e => bodies Φ e
+    let dom' := cs.map (·.1) ++ dom
+    (cs.map fun c => (Φ', c.2.1 ++ dom', c.2.2) :: bodies Φ' (c.2.1 ++ dom') c.2.2).flatten ++
+      bodies Φ' dom' b
+  | .match_ s alts =>
+    bodies Φ dom s ++ (alts.map fun a => bodies Φ (patBinders' a.1 ++ dom) a.2).flatten
+  | .cast e => bodies Φ dom e
 
 def globalsFor (gs : List Sym) (env : Env) : Option (List Val) :=
   gs.mapM (lookup env)
@@ -46,10 +59,13 @@ def handle : List Sexp → String
   | [.atom "fragcount", e] =>
     match parseExpr e with
     | some e =>
-      let bs := ([], e) :: bodies [] e
-      let f1 := (bs.filter fun p => Proofs.Compile.inF [] p.2).length
-      let f2 := (bs.filter fun p => Proofs.Compile.inF p.1 p.2).length
-      s!"({bs.length} {f1} {f2})"
+      -- the module's free variables are the globals (bound by the VM before it runs)
+      let globals := (Compile.compileModule 0 e).1
+      let bs := ([], globals, e) :: bodies [] globals e
+      let f1 := (bs.filter fun p => Proofs.Compile.inF [] p.2.2).length
+      let f2 := (bs.filter fun p => Proofs.Compile.inF p.1 p.2.2).length
+      let f3 := (bs.filter fun p => Proofs.Compile.inF3 0 p.2.2 p.1 p.2.1).length
+      s!"({bs.length} {f1} {f2} {f3})"
     | none => "bad-request"
   | _ => "unimplemented"
 
